@@ -52,3 +52,31 @@ Theorem C02_two_predicates : forall D has_ns hc rm rn rr np1 np2 i p1 p2 c r l,
     node_verdict D has_ns hc rm rn rr p2 n = true.
 Proof. exact filter_filter_members. Qed.
 Print Assumptions C02_two_predicates.
+
+(* ---- the BUILDER (Proofs/BuildFilter.v): what [step[pred]] compiles to ---- *)
+From XP Require Import Parse Build.
+From XP.Proofs Require Import BuildFilter.
+
+(* a predicate the builder classifies as boolean (it cannot be a number and uses
+   neither position() nor last()) never evaluates to a number: the static test is sound *)
+Theorem C02_builder_boolean_test_sound : forall D has_ns hc rm rn rr c,
+  can_be_number c = false -> forall n f, eval D has_ns hc rm rn rr c n <> Val (VNum f).
+Proof. exact can_be_number_false_non_numeric. Qed.
+Print Assumptions C02_builder_boolean_test_sound.
+
+(* for such a predicate, whatever the input expression and the builder's flags:
+   the compiled query selects exactly the candidates of the compiled input whose
+   predicate value, evaluated at the candidate, is true — in candidate order *)
+Theorem C02_builder_boolean_filter : forall D has_ns hc rm rn rr re_ok d input cond fl fi qi pr fi1 c prc fi2,
+  d < max_build_depth ->
+  process re_ok (S d) input (input_flags fl) fi = Ok (qi, pr, fi1) ->
+  process re_ok (S d) cond (cond_flags fl) fi1 = Ok (c, prc, fi2) ->
+  boolean_cond c prc ->
+  exists q pr' fo,
+    process re_ok d (AFilter input cond) fl fi = Ok (q, pr', fo) /\
+    (forall ctx l r, sel D has_ns hc rm rn rr qi ctx = Val l -> sel D has_ns hc rm rn rr q ctx = Val r ->
+       nodes_of r = filter (node_verdict D has_ns hc rm rn rr c) (nodes_of l) /\
+       (forall n, In n (nodes_of r) <->
+          In n (nodes_of l) /\ (exists v, eval D has_ns hc rm rn rr c n = Val v /\ xboolean_value v = true))).
+Proof. exact boolean_filter_selects. Qed.
+Print Assumptions C02_builder_boolean_filter.
